@@ -115,6 +115,8 @@ structure ConsensusShape where
   final : Final
   trustOp : SetOp
   distrustOp : SetOp
+  /-- what `AddPeer(pid)` - reached from the OPEN endpoint `Cluster.PeerAdd`, i.e. by anybody - does to the cache -/
+  addPeerOp : SetOp
   /-- `setup()` calls `Trust` for every configured peer -/
   setupTrustsConfigured : Bool
   validator : Validator
@@ -136,6 +138,9 @@ def parseTrusted : List (Option Nat) → List Nat → TrustCfg
 inductive TOp where
   | trust (p : Nat)
   | distrust (p : Nat)
+  /-- peer `p` performed the join handshake: it called the open endpoints (`Cluster.Version`, `Cluster.PeerAdd p`)
+      remotely and the handlers ran -/
+  | handshake (p : Nat)
   deriving DecidableEq, Repr
 
 def setInsert (s : List Nat) (p : Nat) : List Nat := if s.contains p then s else p :: s
@@ -150,6 +155,7 @@ def applySetOp (op : SetOp) (s : List Nat) (p : Nat) : List Nat :=
 def applyOp (sh : ConsensusShape) (s : List Nat) : TOp → List Nat
   | .trust p => applySetOp sh.trustOp s p
   | .distrust p => applySetOp sh.distrustOp s p
+  | .handshake p => applySetOp sh.addPeerOp s p
 
 /-- the trusted-peer cache after `setup()` -/
 def initialSet (sh : ConsensusShape) (cfg : TrustCfg) : List Nat :=
